@@ -172,12 +172,24 @@ pub(super) fn __add2(a: &mut [BigDigit], b: &[BigDigit]) -> BigDigit {
     let (c, done) = (false, 0);
 
     let mut carry = c as u8;
+    if done > 0 {
+        verif_probe!(AddAsmEntered);
+        if c {
+            verif_probe!(AddAsmCarryOut);
+        }
+        if done < b.len() {
+            verif_probe!(AddTailAfterAsm);
+        }
+    }
 
     for (a, b) in a_lo[done..].iter_mut().zip(b[done..].iter()) {
         carry = adc(carry, *a, *b, a);
     }
 
     if carry != 0 {
+        if !a_hi.is_empty() {
+            verif_probe!(AddCarryIntoHi);
+        }
         for a in a_hi {
             carry = adc(carry, *a, 0, a);
             if carry == 0 {
@@ -186,6 +198,9 @@ pub(super) fn __add2(a: &mut [BigDigit], b: &[BigDigit]) -> BigDigit {
         }
     }
 
+    if carry != 0 {
+        verif_probe!(AddCarryOutTop);
+    }
     carry as BigDigit
 }
 
@@ -216,6 +231,7 @@ impl AddAssign<&BigUint> for BigUint {
     fn add_assign(&mut self, other: &BigUint) {
         let self_len = self.data.len();
         let carry = if self_len < other.data.len() {
+            verif_probe!(AddSelfShorter);
             let lo_carry = __add2(&mut self.data[..], &other.data[..self_len]);
             self.data.extend_from_slice(&other.data[self_len..]);
             __add2(&mut self.data[self_len..], &[lo_carry])
